@@ -5,5 +5,6 @@ CONSTANTS
   MaxCalls = 1
   Torn = FALSE
   UseOnce = FALSE
+  FastPath = FALSE
 INVARIANT BuiltOnce
 CHECK_DEADLOCK FALSE
